@@ -222,6 +222,26 @@ func runEGF(c *core.Ctx) {
 		if k == 0 {
 			c.Sample(map[string]any{"a": string(a), "b": string(b), "ref_lcs": lcs})
 		}
+		// with a bound: a sequence found with e edits INSIDE a longer one (free end gaps on both sides)
+		// lies within every bound >= e, whatever the difference of the lengths: same answer as
+		// without bound
+		if n >= 8 && k%2 == 0 {
+			e := c.Rng.Intn(4)
+			inner := gen.Mutate(c.Rng, a, e)
+			long := append(append(gen.DNA(c.Rng, 1+c.Rng.Intn(40)), inner...), gen.DNA(c.Rng, c.Rng.Intn(40))...)
+			free, _, _ := obialign.FastLCSEGFScore(bs(a), bs(long), -1, &shared)
+			for _, bound := range []int{e, e + 1, e + 5} {
+				g1, _, _ := obialign.FastLCSEGFScore(bs(a), bs(long), bound, &shared)
+				g2, _, _ := obialign.FastLCSEGFScore(bs(long), bs(a), bound, nil)
+				c.Count("evaluations", 2)
+				c.Key("egf-bounded/%d/%d/%d", len(a)/20, (len(long)-len(a))/10, bound-e)
+				if g1 != free || g2 != free {
+					c.Violate("egf-bounded", "FastLCSEGFScore with a bound that the end-gap-free alignment respects differs from the answer without bound",
+						map[string]any{"a": string(a), "b": string(long), "edits_inside": e, "bound": bound, "got": g1, "got_swapped": g2, "without_bound": free})
+					break
+				}
+			}
+		}
 	}
 	c.Count("evaluations", per*2)
 }
